@@ -7,6 +7,7 @@ import (
 	"encoding/json"
 	"fmt"
 	"math"
+	"regexp"
 	"sort"
 	"strings"
 	"time"
@@ -32,12 +33,16 @@ import (
 type c09harvest struct {
 	packs map[string][]byte // sha -> wire bytes of api.ChangePack
 	snaps map[string][]byte // sha -> snapshot bytes
+	// mid: snapshots of the replicas taken after every event of a history
+	// (before the quiescent closure lets garbage collection remove tombstones
+	// and dead array slots); seeds of the hostile phase only
+	mid map[string][]byte
 	ops   map[string][]byte // sha -> encoded operation bytes (ChangeInfo.Operations)
 	vvs   map[string][]byte
 }
 
 func newHarvest() *c09harvest {
-	return &c09harvest{packs: map[string][]byte{}, snaps: map[string][]byte{}, ops: map[string][]byte{}, vvs: map[string][]byte{}}
+	return &c09harvest{packs: map[string][]byte{}, snaps: map[string][]byte{}, mid: map[string][]byte{}, ops: map[string][]byte{}, vvs: map[string][]byte{}}
 }
 
 func sha(b []byte) string { h := sha1.Sum(b); return fmt.Sprintf("%x", h[:8]) }
@@ -513,8 +518,19 @@ var c09HSpec = &HSpec{ID: "C09",
 	Eval: func(r *hist.Runner, sc *hist.Scenario, h []hist.Event, res *Result) ([]hist.Violation, bool) {
 		var rpcs []*hist.RPC
 		r.Prepare = func(x *hist.Exec) { x.OnRPC = func(rpc *hist.RPC) { rpcs = append(rpcs, rpc) } }
+		r.AfterEvent = []func(x *hist.Exec, i int){func(x *hist.Exec, i int) {
+			if i != len(x.Hist)-1 {
+				return // every prefix is a history of its own: its last event is enough
+			}
+			for _, rep := range x.AttachedReps() {
+				if b, err := converter.SnapshotToBytes(rep.Doc.RootObject(), rep.Doc.AllPresences()); err == nil {
+					c09H.mid[shapeKeyOfSnapshot(b)] = b
+				}
+			}
+		}}
 		x := r.Run(sc, sc.Cfg, h)
 		r.Prepare = nil
+		r.AfterEvent = nil
 		defer x.Close()
 		if n := len(x.Steps); n > 0 && x.Steps[n-1].NoEffect {
 			return nil, true
@@ -529,6 +545,16 @@ var c09HSpec = &HSpec{ID: "C09",
 		}
 		return viol, false
 	},
+}
+
+// shapeKeyOfSnapshot keys a mid-history snapshot by its shape, so that the map
+// keeps one (the latest) message per shape instead of one per execution.
+func shapeKeyOfSnapshot(b []byte) string {
+	var m api.Snapshot
+	if proto.Unmarshal(b, &m) != nil {
+		return sha(b)
+	}
+	return sha([]byte(shapeOf(m.ProtoReflect())))
 }
 
 // ------------------------------------------------------------- hostile
@@ -583,6 +609,55 @@ func shapeOf(m protoreflect.Message) string {
 }
 
 // panicSite extracts the innermost frame of the code under test from a stack dump.
+// panicChain names a panic by the innermost n frames of the code under test
+// (function names only): the dereference AND who handed it the bad value.
+func panicChain(stack string, n int) string {
+	lines := strings.Split(stack, "\n")
+	seenPanic := false
+	var fns []string
+	for _, l := range lines {
+		if strings.HasPrefix(l, "panic(") {
+			seenPanic = true
+			continue
+		}
+		if seenPanic && strings.Contains(l, "github.com/yorkie-team/yorkie/") && !strings.HasPrefix(l, "\t") {
+			fn := l
+			if j := strings.LastIndex(fn, "("); j > 0 {
+				fn = fn[:j]
+			}
+			if j := strings.LastIndex(fn, "/"); j >= 0 {
+				fn = fn[j+1:]
+			}
+			fns = append(fns, fn)
+			if len(fns) == n {
+				break
+			}
+		}
+	}
+	if len(fns) == 0 {
+		return "?"
+	}
+	return strings.Join(fns, " <- ")
+}
+
+var reMutIdx = regexp.MustCompile(`\[[^\]]*\]`)
+
+// mutClass names the deviation that produced a hostile input: the last two
+// field names of the mutated path and the mutation kind ("nodes.position_created_at:clear"),
+// or "wire-damage" for truncations and byte deletions.
+func mutClass(desc string) string {
+	i := strings.Index(desc, " .")
+	if i < 0 {
+		return "wire-damage"
+	}
+	path := reMutIdx.ReplaceAllString(desc[i+1:], "")
+	segs := strings.Split(strings.TrimPrefix(path, "."), ".")
+	if len(segs) > 2 {
+		segs = segs[len(segs)-2:]
+	}
+	return strings.Join(segs, ".")
+}
+
 func panicSite(stack string) string {
 	lines := strings.Split(stack, "\n")
 	seenPanic := false
@@ -639,7 +714,7 @@ func hostilePack(b []byte) (string, bool) {
 		return nil
 	})
 	if panicked {
-		out = firstLineOf(err.Error()) + " at " + panicSite(err.Error())
+		out = firstLineOf(err.Error()) + " at " + panicChain(err.Error(), 3)
 	}
 	return out, panicked
 }
@@ -662,7 +737,7 @@ func hostileSnapshot(b []byte) (string, bool) {
 		return nil
 	})
 	if panicked {
-		out = firstLineOf(err.Error()) + " at " + panicSite(err.Error())
+		out = firstLineOf(err.Error()) + " at " + panicChain(err.Error(), 3)
 	}
 	return out, panicked
 }
@@ -678,7 +753,7 @@ func hostileOp(b []byte) (string, bool) {
 		return nil
 	})
 	if panicked {
-		out = firstLineOf(err.Error()) + " at " + panicSite(err.Error())
+		out = firstLineOf(err.Error()) + " at " + panicChain(err.Error(), 3)
 	}
 	return out, panicked
 }
@@ -731,16 +806,56 @@ func c09Hostile(env *Env, res *Result) {
 			}
 			return shapes[i] < shapes[j]
 		})
-		if len(shapes) > limit {
-			shapes = shapes[:limit]
+		// the smallest `limit` shapes, plus - whatever their size - every message
+		// that shows a LOCAL shape (message type + set of present fields) none of
+		// the messages picked so far shows: every kind of node the encoders can
+		// produce gets its fields mutated at least once (seeded change C09-3: the
+		// guard of a dead array slot, which only larger snapshots contain)
+		picked := map[string]bool{}
+		covered := map[string]bool{}
+		cover := func(sh string) map[string]bool {
+			ls := map[string]bool{}
+			var msg proto.Message
+			switch kind {
+			case "pack":
+				msg = &api.ChangePack{}
+			case "snapshot":
+				msg = &api.Snapshot{}
+			case "op":
+				msg = &api.Operation{}
+			default:
+				return ls
+			}
+			if proto.Unmarshal(byShape[sh], msg) == nil {
+				localShapes(msg.ProtoReflect(), ls)
+			}
+			return ls
+		}
+		for i, sh := range shapes {
+			ls := cover(sh)
+			fresh := false
+			for l := range ls {
+				if !covered[l] {
+					fresh = true
+				}
+			}
+			if i < limit || fresh {
+				picked[sh] = true
+				for l := range ls {
+					covered[l] = true
+				}
+			}
 		}
 		k := kind
 		if k == "vv" {
 			k = "snapshot"
 		}
 		for _, sh := range shapes {
-			seeds = append(seeds, seed{k, byShape[sh]})
+			if picked[sh] {
+				seeds = append(seeds, seed{k, byShape[sh]})
+			}
 		}
+		res.Count("local_shapes_covered:"+kind, len(covered))
 	}
 	limit := 150
 	if env.Tier == "thorough" {
@@ -748,6 +863,7 @@ func c09Hostile(env *Env, res *Result) {
 	}
 	collect("pack", c09H.packs, limit)
 	collect("snapshot", c09H.snaps, limit)
+	collect("snapshot", c09H.mid, limit)
 	collect("op", c09H.ops, limit)
 	collect("vv", c09H.vvs, 5)
 	feed := func(kind string, b []byte, desc string) {
@@ -770,7 +886,7 @@ func c09Hostile(env *Env, res *Result) {
 		if bad {
 			raw, _ := json.Marshal(c09case{Kind: kind, Desc: desc, Hex: fmt.Sprintf("%x", b)})
 			res.AddFound(Found{Property: "C09", Kind: "decoder-panic", Sig: "decoder-panic:" + kind, Detail: desc + "\n" + msg, Case: raw,
-				Core: "decoder-panic|" + kind + "|" + hist.NormErr(msg)})
+				Core: "decoder-panic|" + kind + "|" + hist.NormErr(msg) + "|" + mutClass(desc)})
 		}
 	}
 	for si, sd := range seeds {
